@@ -29,6 +29,7 @@ import (
 	"flag"
 	"fmt"
 	"io"
+	"math"
 	"math/rand"
 	"os"
 	"runtime"
@@ -38,6 +39,7 @@ import (
 	"time"
 
 	"github.com/influxdata/influxdb/v2/models"
+	"github.com/influxdata/influxdb/v2/pkg/limiter"
 	"github.com/influxdata/influxdb/v2/toml"
 	"github.com/influxdata/influxdb/v2/tsdb"
 	"github.com/influxdata/influxdb/v2/tsdb/engine/tsm1"
@@ -66,6 +68,7 @@ func (e *shardEnv) openLive() error {
 	// cache snapshots are taken by the workload only (a background one could overlap a delete: F1); compactions are the engine's
 	opt.Config.CacheSnapshotWriteColdDuration = toml.Duration(1000 * time.Hour)
 	opt.Config.CompactFullWriteColdDuration = toml.Duration(150 * time.Millisecond)
+	opt.CompactionLimiter = limiter.NewFixed(2) // as tsdb.Store sets it (bare EngineOptions have none: no compaction would ever be scheduled)
 	e.sh = tsdb.NewShard(1, dbPath+"/rp0/1", e.root+"/wal/db0/rp0/1", e.sfile, opt)
 	if err := e.sh.Open(context.Background()); err != nil {
 		e.sfile.Close()
@@ -107,6 +110,7 @@ type tracer struct {
 	snapDel sync.Mutex              // a delete and a snapshot-writing operation never overlap
 	gap     int                     // upper bound of the pause between two operations of a goroutine (ms)
 	start   time.Time
+	stress  bool // no pauses between the operations (race monitor; such traces are too long to be validated)
 	commits atomic.Int64
 }
 
@@ -146,8 +150,14 @@ func (t *tracer) worker(th string, rng *rand.Rand, nops int, closer bool, lead i
 			x = 85
 		case lead == 1 && i == 2:
 			x = 90
+		case t.stress:
+			// dense workload for the race monitor: no pauses, the same operation mix
 		default:
-			time.Sleep(time.Duration(rng.Intn(t.gap)) * time.Millisecond)
+			// the goroutines fire in bursts: everyone waits for the next multiple of gap/2 since the start of the trace (plus
+			// up to 2 ms of jitter), so that their operations overlap although the trace outlasts the 1 s compaction tick
+			period := time.Duration(t.gap) * time.Millisecond / 2
+			el := time.Since(t.start)
+			time.Sleep((el/period+1)*period - el + time.Duration(rng.Intn(2000))*time.Microsecond)
 			// every delete and every ScheduleFullCompaction stops the engine's compaction loop and restarts its 1 s ticker:
 			// a window without them lets the loop tick, so that real compactions run while the others read, write and snapshot
 			if el := time.Since(t.start); el > 600*time.Millisecond && el < 2200*time.Millisecond && x >= 68 && x < 80 || x >= 87 && x < 94 && el > 600*time.Millisecond {
@@ -316,6 +326,41 @@ func (t *tracer) run(seed int64, nthreads, nops int, closeConc bool) error {
 	return nil
 }
 
+// cacheHammer: goroutines of WriteMulti / Values / Snapshot+ClearSnapshot / DeleteRange on one real tsm1.Cache (the cache
+// is the part of the shard where operations of different callers meet without the engine lock); race monitor only.
+func cacheHammer(d time.Duration, seed int64) {
+	c := tsm1.NewCache(1<<20, tsdb.EngineTags{})
+	stop := time.Now().Add(d)
+	var wg sync.WaitGroup
+	for g := 0; g < 4; g++ {
+		wg.Add(1)
+		go func(g int) {
+			defer wg.Done()
+			r := rand.New(rand.NewSource(seed*31 + int64(g)))
+			for time.Now().Before(stop) {
+				k := fmt.Sprintf("k%d", r.Intn(3))
+				switch r.Intn(6) {
+				case 0, 1:
+					c.WriteMulti(map[string][]tsm1.Value{k: {tsm1.NewIntegerValue(int64(r.Intn(5)), 1)}})
+				case 2:
+					c.Values([]byte(k))
+				case 3:
+					if _, err := c.Snapshot(); err == nil {
+						c.ClearSnapshot(r.Intn(4) > 0)
+					}
+				case 4:
+					c.DeleteRange([][]byte{[]byte(k)}, 1, 3)
+				default:
+					c.Size()
+					c.Keys()
+					c.DeleteRange([][]byte{[]byte(k)}, math.MinInt64, math.MaxInt64)
+				}
+			}
+		}(g)
+	}
+	wg.Wait()
+}
+
 func recordMain(args []string) {
 	fs := flag.NewFlagSet("record", flag.ExitOnError)
 	seed := fs.Int64("seed", 1, "")
@@ -328,7 +373,12 @@ func recordMain(args []string) {
 	stuck := fs.Duration("stuck", 180*time.Second, "watchdog: no event for this long = stuck")
 	gap := fs.Int("gap", 500, "upper bound of the pause between two operations of a goroutine (ms); traces must outlast the 1 s compaction tick")
 	scratch := fs.String("scratch", "", "")
+	stress := fs.Bool("stress", false, "no pauses between operations (dense workload for the race detector)")
+	hammer := fs.Duration("cache-hammer", 0, "first hammer one tsm1.Cache from 4 goroutines for this long (race monitor)")
 	fs.Parse(args)
+	if *hammer > 0 {
+		cacheHammer(*hammer, *seed)
+	}
 	of, err := os.Create(*out)
 	if err != nil {
 		fmt.Fprintln(os.Stderr, err)
@@ -378,7 +428,7 @@ func recordMain(args []string) {
 				cc.keys[k].typ = 1
 			}
 		}
-		t := &tracer{tr: i, log: lg, cc: cc, env: &shardEnv{root: root}, gap: *gap}
+		t := &tracer{tr: i, log: lg, cc: cc, env: &shardEnv{root: root}, gap: *gap, stress: *stress}
 		for k := 0; k < traceKeys; k++ {
 			t.rev = append(t.rev, map[interface{}]int64{})
 		}
